@@ -1682,6 +1682,45 @@ def _oracle_api(case):
                 if c.header != _mk_header(hexp):
                     v.append((P + "/copy-header", f"copy has header {c.header}"))
                 v += _compare(B, c.get_structure(), 0, CTAB_EXPRESSIBLE, P + "/copy")
+                # every way of exporting an object whose header was edited in place, each on its own object and as the
+                # FIRST thing done after the edit (so that no earlier export has synchronised anything)
+                import pickle
+
+                def prepared(from_text):
+                    m = MOLFile()
+                    m.header = _mk_header(h1)
+                    m.set_structure(_mk_atoms(B), version=case["ver"])
+                    if from_text:
+                        m = reread(m, MOLFile)
+                    m.header.comments = h2["comments"]
+                    m.header.program = h2["program"]
+                    return m
+
+                want_text = str(fresh)
+                exporters = {
+                    "write": lambda m: (lambda b: (m.write(b), b.getvalue())[1])(io.StringIO()).rstrip("\n"),
+                    "str": lambda m: str(m),
+                    "copy-then-str": lambda m: str(m.copy()),
+                    "copy-then-write": lambda m: (lambda b: (m.copy().write(b), b.getvalue())[1])(io.StringIO()).rstrip("\n"),
+                    "copy-then-header": lambda m: (lambda c_: "\n".join(c_.header.serialize().splitlines() + c_.lines[3:]))(m.copy()),
+                    "copy-of-copy": lambda m: str(m.copy().copy()),
+                    "deepcopy-then-str": lambda m: str(_copy.deepcopy(m)),
+                    "copy.copy-then-str": lambda m: str(_copy.copy(m)),
+                    "pickle-then-str": lambda m: str(pickle.loads(pickle.dumps(m))),
+                    "header-then-lines": lambda m: "\n".join(m.header.serialize().splitlines() + m.lines[3:]),
+                }
+                for how, ex in exporters.items():
+                    for from_text in (False, True):
+                        try:
+                            got = ex(prepared(from_text))
+                        except Exception as e:  # noqa: BLE001
+                            v.append((P + "/export-after-in-place-edit/" + how + "/raises", f"{type(e).__name__}: {e}"))
+                            continue
+                        if got != want_text:
+                            v.append((P + "/export-after-in-place-edit/" + how,
+                                      f"header edited in place ({'parsed' if from_text else 'built'} file), then {how}: header lines "
+                                      f"{got.splitlines()[:3]} instead of {want_text.splitlines()[:3]}"))
+                            break
                 # MOLFile can read the first record of an SD file
                 sd = SDFile({"first": _rec_of(h1, A, md), "second": _rec_of(h2, B, [])})
                 v += _compare(A, MOLFile.read(io.StringIO(sd.serialize())).get_structure(), 0, CTAB_EXPRESSIBLE, P + "/molfile-reads-sdf")
@@ -1725,6 +1764,40 @@ def _oracle_api(case):
                 fresh = _rec_of(dict(h1, comments=h2["comments"]), B, md2, case["ver"])
                 if rec.serialize() != fresh.serialize() or not (rec == fresh):
                     v.append((P + "/differs-from-fresh-object", "reused SDRecord differs from a fresh one with the same content"))
+                import pickle
+
+                def prepared_sd(from_text):
+                    sdx = SDFile({"r1": _rec_of(h1, B, md, case["ver"]), "r2": _rec_of(h2, A, [])})
+                    if from_text:
+                        sdx = SDFile.deserialize(sdx.serialize())
+                    sdx["r1"].header.comments = h2["comments"]
+                    sdx["r1"].metadata[k0] = "changed"
+                    return sdx
+
+                want_sd = SDFile({"r1": _rec_of(dict(h1, comments=h2["comments"]), B, md2, case["ver"]), "r2": _rec_of(h2, A, [])}).serialize()
+                sd_exporters = {
+                    "serialize": lambda x: x.serialize(),
+                    "str": lambda x: str(x),
+                    "lines": lambda x: "".join(l + "\n" for l in x.lines),
+                    "write": lambda x: (lambda b: (x.write(b), b.getvalue())[1])(io.StringIO()),
+                    "copy": lambda x: x.copy().serialize(),
+                    "deepcopy": lambda x: _copy.deepcopy(x).serialize(),
+                    "pickle": lambda x: pickle.loads(pickle.dumps(x)).serialize(),
+                    "records-one-by-one": lambda x: "".join(x[n].serialize() + "$$$$\n" for n in x),
+                    "values": lambda x: "".join(r.serialize() + "$$$$\n" for r in x.values()),
+                    "new-file-from-items": lambda x: SDFile(dict(x.items())).serialize(),
+                }
+                for how, ex in sd_exporters.items():
+                    for from_text in (False, True):
+                        try:
+                            got = ex(prepared_sd(from_text))
+                        except Exception as e:  # noqa: BLE001
+                            v.append((P + "/export-after-in-place-edit/" + how + "/raises", f"{type(e).__name__}: {e}"))
+                            continue
+                        if SDFile.deserialize(got) != SDFile.deserialize(want_sd) or list(SDFile.deserialize(got).keys()) != ["r1", "r2"]:
+                            v.append((P + "/export-after-in-place-edit/" + how,
+                                      f"record edited in place ({'parsed' if from_text else 'built'} file), then {how}: differs from a fresh file"))
+                            break
                 back = SDRecord.deserialize(rec.serialize())
                 v += _check_rec(back, dict(h1, comments=h2["comments"]), B, md2, P + "/reparsed")
                 if not (back == rec):
@@ -1820,8 +1893,31 @@ def _oracle_api(case):
                 if list(sd.keys()) != ["Molecule"]:
                     v.append((P + "/empty-file-record-name", f"{list(sd.keys())}"))
                 texts["SDFile"] = sd[next(iter(sd))].ctab.splitlines()
-                sd2 = SDFile({n: _rec_of(h1, B, []) for n in case["names"]})
+                sd2 = SDFile({n: _rec_of(h1 if i % 2 else h2, B, md if i % 2 == 0 else []) for i, n in enumerate(case["names"])})
                 target = case["names"][-1]
+                for from_text in (False, True):
+                    # the wrapper addressing an EXISTING record (by name, and by default = the first one) replaces the molecule
+                    # and nothing else: header fields, metadata, name, position, the other records
+                    for tgt in (case["names"][-1], None):
+                        sdw = SDFile({n: _rec_of(h1 if i % 2 else h2, B, md if i % 2 == 0 else []) for i, n in enumerate(case["names"])})
+                        if from_text:
+                            sdw = SDFile.deserialize(sdw.serialize())
+                        set_structure(sdw, _mk_atoms(A), bt, ver, **({} if tgt is None else {"record_name": tgt}))
+                        hit = case["names"][0] if tgt is None else tgt
+                        for state, fobj in (("in-memory", sdw), ("reread", reread(sdw, SDFile))):
+                            if list(fobj.keys()) != case["names"]:
+                                v.append((P + "/existing-record/names", f"{case['names']} became {list(fobj.keys())}"))
+                                break
+                            for i, n in enumerate(case["names"]):
+                                v += _check_rec(fobj[n], h1 if i % 2 else h2, A if n == hit else B, md if i % 2 == 0 else [],
+                                                P + "/existing-record/" + ("target" if n == hit else "other") + "-" + state,
+                                                dflt if n == hit else 0, name=n)
+                            if v:
+                                break
+                        if v:
+                            break
+                    if v:
+                        break
                 set_structure(sd2, _mk_atoms(A), bt, ver, record_name=target)
                 texts["SDFile[name]"] = sd2[target].ctab.splitlines()
                 set_structure(sd2, _mk_atoms(A), bt, ver, record_name=case["extra_name"])
